@@ -273,18 +273,55 @@ func ruleF3(c *Ctx) {
 		return
 	}
 	n := 0
-	callsIn(f, func(ci ssa.CallInstruction) {
-		cc := ci.Common()
+	isHandlerCall := func(cc *ssa.CallCommon) bool {
 		if cc.IsInvoke() || cc.StaticCallee() != nil {
-			return
+			return false
 		}
 		// dynamic call of a handler value: func(*Pass1, []ast.Exp)
 		sig, ok := cc.Value.Type().Underlying().(*types.Signature)
-		if !ok || sig.Params().Len() != 2 || !namedTypeIs(sig.Params().At(0).Type(), "internal/pass1", "Pass1") {
+		return ok && sig.Params().Len() == 2 && namedTypeIs(sig.Params().At(0).Type(), "internal/pass1", "Pass1")
+	}
+	// a dispatcher looks the handler up and calls it with its own operand parameter, unchanged
+	dispatcherParam := func(g *ssa.Function) int {
+		idx := -1
+		if g == nil || g.Pkg != f.Pkg || g == f {
+			return -1
+		}
+		bad := false
+		callsIn(g, func(ci ssa.CallInstruction) {
+			if !isHandlerCall(ci.Common()) {
+				return
+			}
+			p, ok := ci.Common().Args[1].(*ssa.Parameter)
+			if !ok {
+				bad = true
+				return
+			}
+			for i, gp := range g.Params {
+				if gp == p {
+					if idx >= 0 && idx != i {
+						bad = true
+					}
+					idx = i
+				}
+			}
+		})
+		if bad {
+			return -1
+		}
+		return idx
+	}
+	callsIn(f, func(ci ssa.CallInstruction) {
+		cc := ci.Common()
+		var arg ssa.Value
+		if isHandlerCall(cc) {
+			arg = cc.Args[1]
+		} else if i := dispatcherParam(cc.StaticCallee()); i >= 0 && i < len(cc.Args) {
+			arg = cc.Args[i]
+		} else {
 			return
 		}
 		n++
-		arg := cc.Args[1]
 		key := fmt.Sprintf("TraverseAST|handler call#%d operands", n)
 		switch a := arg.(type) {
 		case *ssa.MakeSlice:
